@@ -17,3 +17,39 @@
     (! (= (keccak.st25 (select (keccak.round s rc) 0) (select (keccak.round s rc) 1) (select (keccak.round s rc) 2) (select (keccak.round s rc) 3) (select (keccak.round s rc) 4) (select (keccak.round s rc) 5) (select (keccak.round s rc) 6) (select (keccak.round s rc) 7) (select (keccak.round s rc) 8) (select (keccak.round s rc) 9) (select (keccak.round s rc) 10) (select (keccak.round s rc) 11) (select (keccak.round s rc) 12) (select (keccak.round s rc) 13) (select (keccak.round s rc) 14) (select (keccak.round s rc) 15) (select (keccak.round s rc) 16) (select (keccak.round s rc) 17) (select (keccak.round s rc) 18) (select (keccak.round s rc) 19) (select (keccak.round s rc) 20) (select (keccak.round s rc) 21) (select (keccak.round s rc) 22) (select (keccak.round s rc) 23) (select (keccak.round s rc) 24)) (keccak.round s rc))
        :pattern ((keccak.round s rc))))
   :reveal (keccak.round keccak.st25))
+
+; one step of the sponge
+(lemma absorb_end (forall ((p (Array Int Int)) (k Int)) (=> (<= k 0) (= (keccak.absorb p k) keccak.zero)))
+  :reveal (keccak.absorb))
+(lemma absorb_split (forall ((p (Array Int Int)) (k Int))
+    (=> (> k 0) (= (keccak.absorb p k) (keccak.f1600 (keccak.xorBlock (keccak.absorb p (- k 1)) p (- k 1))))))
+  :reveal (keccak.absorb))
+
+; a lane whose 64 bits are 0 is the zero vector
+(lemma lane_zero
+  (forall ((a (Array Int Int)) (off Int))
+    (! (=> (forall ((z Int)) (=> (and (<= off z) (< z (+ off 64))) (= (select a z) 0))) (= (keccak.lane a off) #x0000000000000000))
+       :pattern ((keccak.lane a off))))
+  :reveal (keccak.lane))
+; lanes of arrays that agree on the 64 positions are equal
+(lemma lane_ext
+  (forall ((a (Array Int Int)) (i Int) (c (Array Int Int)) (j Int))
+    (! (=> (forall ((z Int)) (=> (and (<= 0 z) (< z 64)) (= (select a (+ i z)) (select c (+ j z))))) (= (keccak.lane a i) (keccak.lane c j)))
+       :pattern ((keccak.lane a i) (keccak.lane c j))))
+  :reveal (keccak.lane))
+; booleanity of a 64-bit window, both views
+(lemma lanebool_range
+  (forall ((a (Array Int Int)) (off Int))
+    (! (= (keccak.lanebool a off) (bits.allboolFrom a off (+ off 64)))
+       :pattern ((keccak.lanebool a off))))
+  :reveal (keccak.lanebool) :lemmas (allboolFrom_elem allboolFrom_intro))
+
+; the sponge state after k blocks depends only on the first 1088*k padded bits
+(lemma absorb_ext
+  (forall ((a (Array Int Int)) (c (Array Int Int)) (k Int))
+    (! (=> (forall ((t Int)) (=> (and (<= 0 t) (< t (* 1088 k))) (= (select a t) (select c t))))
+           (= (keccak.absorb a k) (keccak.absorb c k)))
+       :pattern ((keccak.absorb a k) (keccak.absorb c k))))
+  :induct k :inst (a c (- k 1))
+  :unfold ((keccak.absorb a k) (keccak.absorb c k))
+  :reveal (keccak.xorBlock) :lemmas (lane_ext))
